@@ -58,7 +58,7 @@ func (p permSpec) String() string {
 // outcome is what a scripted callback returns for given arguments.
 type outcome struct {
 	kind outKind
-	perm permSpec // returned Permissions (accept; on partial anything but pNil is a contract violation by the callback)
+	perm permSpec // returned Permissions (accept; reject: returned next to the error and to be ignored; on partial anything but pNil is a contract violation by the callback)
 	next int      // partial: index of the stage named by PartialSuccessError.Next
 }
 
@@ -71,6 +71,9 @@ func (o outcome) String() string {
 			return fmt.Sprintf("partial(next=%d,perms=%s!)", o.next, o.perm)
 		}
 		return fmt.Sprintf("partial(next=%d)", o.next)
+	}
+	if o.perm.kind != pNil {
+		return o.kind.String() + "(+perms " + o.perm.String() + ")"
 	}
 	return o.kind.String()
 }
@@ -145,7 +148,7 @@ func (c *caseSpec) set(stage int, kind, user, cred string, o outcome) *caseSpec 
 func (c *caseSpec) describe() map[string]any {
 	cells := map[string]string{}
 	for k, v := range c.cells {
-		if v.kind != oReject {
+		if v.kind != oReject || v.perm.kind != pNil {
 			cells[k] = v.String()
 		}
 	}
@@ -245,9 +248,10 @@ func (c *caseSpec) realize(lg *evlog, o outcome) (*ssh.Permissions, error) {
 	case oPartial:
 		return makePerms(o.perm), &ssh.PartialSuccessError{Next: c.callbacks(lg, o.next)}
 	case oBannerReject:
-		return nil, &ssh.BannerError{Err: errScripted, Message: "verif: denied\n"}
+		return makePerms(o.perm), &ssh.BannerError{Err: errScripted, Message: "verif: denied\n"}
 	}
-	return nil, errScripted
+	// a rejecting callback may hand back a Permissions value as well; it must never surface
+	return makePerms(o.perm), errScripted
 }
 
 func poolName(blob []byte) string {
